@@ -243,9 +243,10 @@ impl FloatEncoding for f32 {
                 round_bits = 0; // not rounding is required
                 mantissa <<= shift as u32;
             } else {
-                let shifted = mantissa << (30 + shift) as u32;
-                round_bits = (shifted >> 28 & 0b110) as u8 | ((shifted & 0x1fffffff) != 0) as u8;
-                mantissa >>= (-shift) as u32;
+                // widen first: up to all 32 bits of the mantissa can lie below the unit of the subnormals
+                let shifted = (mantissa as u64) << (32 + shift) as u32;
+                round_bits = (shifted >> 30 & 0b110) as u8 | ((shifted & 0x7fffffff) != 0) as u8;
+                mantissa = (shifted >> 32) as u32;
             }
 
             // then compose the bit representation of f32
@@ -364,10 +365,11 @@ impl FloatEncoding for f64 {
                 round_bits = 0; // not rounding is required
                 mantissa <<= shift as u32;
             } else {
-                let shifted = mantissa << (62 + shift) as u64;
+                // widen first: up to all 64 bits of the mantissa can lie below the unit of the subnormals
+                let shifted = (mantissa as u128) << (64 + shift) as u32;
                 round_bits =
-                    (shifted >> 60 & 0b110) as u8 | ((shifted & 0x1fffffffffffffff) != 0) as u8;
-                mantissa >>= (-shift) as u32;
+                    (shifted >> 62 & 0b110) as u8 | ((shifted & 0x7fffffffffffffff) != 0) as u8;
+                mantissa = (shifted >> 64) as u64;
             }
 
             // then compose the bit representation of f64
